@@ -12,6 +12,7 @@ void __sanitizer_finish_switch_fiber(void *fake_stack_save, const void **bottom_
 #endif
 
 World *g_world = nullptr;
+std::vector<uint32_t> g_dict;
 volatile uint64_t g_asan_reports = 0, g_asan_writes = 0;
 char g_asan_first[256];
 const char *g_variant = "prod";
